@@ -224,7 +224,7 @@ PROPS = {
                "closure.depth2", "closure.depth3", "closure.arity3", "closure.in_loop", "closure.in_submodule",
                "closure.returned", "closure.in_array", "closure.writes_captured", "closure.loop_idiom",
                "closure.siblings", "table.alias", "std.callback", "std.key_function", "native.call1",
-               "value.native_function", "call.via_import", "reals", "while", "for_each", "array",
+               "value.native_function", "call.via_import", "reals", "compare.int_vs_near_real", "while", "for_each", "array",
                "corpus.R-1a", "corpus.R-1b", "corpus.R-2a", "corpus.R-2b", "corpus.R-3", "corpus.R-4", "corpus.R-5"],
         rule="the seven witness programs of findings/C01 (repaired findings R-1..R-5) first, then random WELL-SCOPED programs (RefScope.well_scoped, re-checked per case in Coq) from a kind- and "
              "rank-directed generator: 1-5 functions plus leaf functions of arity 0-3 spread over up to four "
@@ -1031,14 +1031,19 @@ PROPS = {
         n_quick=160, n_thorough=1500,
         gates=["hm.Json", "hm.Cbor", "hm.Bincode", "ht.Json", "ht.Cbor", "ht.Bincode", "rt.module.Json",
                "rt.module.Yaml", "rt.program.Json", "rt.program.Cbor", "rt.program.Bincode", "rt.value.Json",
-               "rt.value.Cbor", "rt.value.Bincode", "ow.plain", "ow.wild", "ow.table"],
+               "rt.value.Cbor", "rt.value.Bincode", "ow.plain", "ow.wild", "ow.table", "module.random",
+               "module.random.empty_function", "module.random.submodules"],
         rule="(a) CaoHashMap<i64,i64> and HandleTable<i64> with 0..130 entries (sizes around powers of two and the "
              "load thresholds, some after removals) through JSON / CBOR / bincode: the entries in serialization "
              "order, the size hint the format reports, and the decoded map's iteration order and capacity are "
              "compared with the Coq model of the deserializer, and decoded = original as maps; (b) every program "
              "of the library: source module through JSON and YAML then compiled = compiled original (bytecode, "
              "data, sorted labels / variables / trace); compiled program through JSON / CBOR / bincode: fields "
-             "equal and same outcome and globals when run; (c) random values (nil, boundary ints, reals incl. "
+             "equal and same outcome and globals when run; (b') 60 / 600 random module trees of the module generator "
+             "(submodules, imports, closures, functions without cards, real literals with random bits, planted faults): "
+             "the same source and compiled-program round trips, fields only (modules with a non-finite real literal "
+             "skip the source round trip: A-28); the harness uses serde_json with the float_roundtrip feature iff "
+             "every manifest of the repository does (tools/harness_features.py); (c) random values (nil, boundary ints, reals incl. "
              "-0.0 / subnormal / max, unicode and escaped strings, nested ordered tables) VM -> owned -> format -> "
              "owned -> second VM -> owned: deep equal with table order; (d) the same values and 'wild' ones (nil / real / "
              "-0.0 / NaN / repeated keys) as OwnedValue terms: try_from(insert_value(o)) of the crate = the Coq model "
